@@ -267,7 +267,7 @@ def run_op(w, op):
             w.containers.append(c)
             return R.filter_from_sources_iterable(lambda o: bool(o.value), c)
         if which == 4:
-            c = dict(h.items()) or {1: 1}
+            c = dict(list(h.items())[: 1 + a[2] % 3]) or {1: 1}  # (also dicts with a single entry)
             w.containers.append(c)
             return w.H(c)
         if which == 5:
